@@ -21,7 +21,8 @@ namespace nmtools::index
             if constexpr (meta::is_resizable_v<result_t>) {
                 auto non_single_count = 0;
                 for (size_t i=0; i<(size_t)len(shape); i++) {
-                    if (at(shape,i)>1) {
+                    // count exactly the axes the loop below copies (an extent of 0 is kept, as in numpy)
+                    if (at(shape,i)!=1) {
                         non_single_count++;
                     }
                 }
